@@ -5,9 +5,13 @@
     "infra" : the static infrastructure description (`Sim.infra`),
     "infra_full" : every InfrastructureInfo field (`Sim.infraInfo`) when the request carries
                    "net": {"phases":[bits], "constraints":[{"current":[[station,bits]…],"limit":bits,"name":str|null}]}.
+  An optional "ignored": [timestamp…] lists the events of a type the simulator has no handler for that
+  are also in the queue: the run is then `Sim.runI` (`AcnModel/Ignored.lean`), whose "event_history" holds
+  the plug-in / unplug / recompute entries only.
 -/
 import AcnModel.WireSim
 import AcnModel.SchedView
+import AcnModel.Ignored
 open Lean Acn Acn.Wire Acn.EventCore Acn.Sim
 
 def jActive (e : Evse.Ev Float) : Json :=
@@ -44,9 +48,13 @@ def jInfra (i : Infra Float) : Json :=
 def handle (j : Json) : Except String Json := do
   let cfg ← parseSimCfg j
   let sched ← parseSched (← j.getObjVal? "sched")
-  let fuel := fuelFor cfg.core
-  let r := Sim.run cfg sched fuel (Sim.init cfg)
-  let vs := Sim.runViews cfg sched fuel (Sim.init cfg)
+  let ign ← match j.getObjVal? "ignored" with
+    | .ok v => (← asArr v).mapM fun x => x.getInt?
+    | .error _ => pure []
+  let r := if ign.isEmpty then Sim.run cfg sched (fuelFor cfg.core) (Sim.init cfg)
+    else Sim.runI cfg sched ign (fuelForI cfg.core ign) (Sim.init cfg)
+  let vs := if ign.isEmpty then Sim.runViews cfg sched (fuelFor cfg.core) (Sim.init cfg)
+    else Sim.runViewsI cfg sched ign (fuelForI cfg.core ign) (Sim.init cfg)
   let out := ((jResult cfg r).setObjVal! "views" (jList jView vs)).setObjVal! "infra" (jList jStationInfo (infra cfg))
   match j.getObjVal? "net" with
   | .error _ => pure out
